@@ -80,6 +80,27 @@ def deleteRangeConsume : List Item → Bool × List Bytes
     let (ok, ks) := deleteRangeConsume rest
     (ok, match tkeyFromKey k with | some tk => tk :: ks | none => ks)
 
+/-- the batching of `DeleteRange`'s consumer loop: (deletes in the open batch, deletes committed, keys seen).
+    As written: add the delete, commit when `(numKV+1) % B = 0`.  The other shape a refactoring produces —
+    commit a full batch only when the next key arrives — is what the model takes when the regenerated fact says
+    the source no longer has the first shape. -/
+structure Batching where
+  pending : Nat
+  committed : Nat
+  numKV : Nat
+
+def batchStep (B : Nat) (s : Batching) : Batching :=
+  if Gen.deleteRangeFlushesAfterAdd then
+    if (s.numKV + 1) % B = 0 then ⟨0, s.committed + s.pending + 1, s.numKV + 1⟩ else ⟨s.pending + 1, s.committed, s.numKV + 1⟩
+  else
+    if s.numKV > 0 ∧ s.numKV % B = 0 then ⟨1, s.committed + s.pending, s.numKV + 1⟩ else ⟨s.pending + 1, s.committed, s.numKV + 1⟩
+
+/-- number of deletes that reached a committed batch after `n` scanned keys (the trailing
+    `if numKV % B != 0 { Commit }` included) -/
+def deleteRangeCommitted (B n : Nat) : Nat :=
+  let s := (List.range n).foldl (fun s _ => batchStep B s) ⟨0, 0, 0⟩
+  if s.numKV % B ≠ 0 then s.committed + s.pending else s.committed
+
 /-- `keyvalue.NewTKey(key)`; `none` = the key is rejected with an error -/
 def kvNewTKey (key : Bytes) : Option Bytes :=
   if Gen.kvRejectsNul && key.contains 0 then none else some (newTKey 177 (key ++ [0]))
